@@ -332,6 +332,38 @@ def correspondence(ctx):
                              "|".join(f"{a}={qlist(seed_tapes[a])}" for a in ints) or "~",
                              "|".join(f"{enc_arg(a)}@{qlist(pp)}@{n}" for a, pp, n in zip(pat, ps, nums)))))
         ctx.case(("dsargs", t, tuple(str(a) for a in pat), tuple(nums)), sample={"op": "dsargs", "seeds": [str(a) for a in pat], "data_nums": nums})
+    # (4c) error branches of generate_data_from_prob_dist (op gde): invalid vectors (negative entry beyond atol, sum off),
+    #      tiny negative entries within atol, negative / numpy / bool / float seeds; on an error nothing may be drawn
+    from quara.settings import Settings
+    atol = Settings.get_atol()
+    bad_vecs = [("sum", np.array([0.5, 0.25])), ("sum", np.array([0.5, 0.75])), ("neg", np.array([0.5, -0.125, 0.625])),
+                ("neg", np.array([-0.25, 0.5, 0.75])), ("tiny-neg", np.array([0.5, -2.0 ** -50, 0.5 + 2.0 ** -50])),
+                ("ok", np.array([0.25, 0.0, 0.75])), ("ok", np.array([0.5, 0.5]))]
+    seed_args = [("I5", lambda: 5), ("I0", lambda: 0), ("I-1", lambda: -1), ("I-7", lambda: -7), ("O", lambda: np.int64(3)),
+                 ("O", lambda: True), ("O", lambda: 3.0), ("G", lambda: MT(9)), ("N", lambda: None)]
+    for (vk, p), (code, mk) in itertools.product(bad_vecs, seed_args):
+        n = 6
+        arg = mk()
+        tape = MT(9).random(n) if code == "G" else (MT(int(code[1:])).random(n) if code[0] == "I" and int(code[1:]) >= 0 else None)
+        perturb(4242, 2)
+        if code == "N":
+            tape = np.random.random(n); perturb(4242, 2)
+        pos0 = arg.bit_generator.state["state"]["pos"] if code == "G" else None
+        g0 = gstate()
+        try:
+            d = dg.generate_data_from_prob_dist(p, n, arg)
+            got = ("ok", [int(x) for x in d])
+        except ValueError as ex:
+            m = str(ex)
+            got = ("err", "negativeEntry" if "non-negative number" in m else "sumNotOne" if "sum of prob_dist" in m
+                   else "negativeSeed" if "non-negative integer" in m else "ValueError:" + m[:40])
+        except AttributeError:
+            got = ("err", "notAStream")
+        drawn = (code == "G" and arg.bit_generator.state["state"]["pos"] != pos0) or (code == "N" and gstate() != g0)
+        pend.append(("gde", (vk, p.tolist(), code, repr(arg)[:20]), (got, bool(drawn)),
+                     drv.ask("gde", q(atol), code, qlist(tape) if tape is not None else "-", qlist(p), n)))
+        ctx.case(("gde", vk, tuple(p), code, repr(arg)[:20]), sample={"op": "gde", "probs": p.tolist(), "seed": repr(arg)[:30]})
+        ctx.count(f"generate_data_from_prob_dist outcome {got[1] if got[0] == 'err' else 'ok'}")
     # (5) generate_empi_dists_sequence_from_prob_dists: multinomial draws consumed schedule-major on one stream
     for t in range(80 if ctx.quick else 600):
         k = int(g.integers(1, 4))
@@ -356,6 +388,15 @@ def correspondence(ctx):
             ok = ([] if line == "-" else [int(x) for x in line.split(",")]) == impl
         elif op in ("empi", "pipe"):
             ok = same_empi(impl, parse_empi(line))
+        elif op == "gde":
+            got, drawn = impl
+            t = line.split()
+            mdrawn = int(t[-1].split("=")[1]) > 0
+            if got[0] == "ok":
+                ok = t[0] == "ok" and ([] if t[1] == "-" else [int(x) for x in t[1].split(",")]) == got[1] and \
+                    (mdrawn == drawn or inp[2][0] not in "GN")
+            else:
+                ok = t[0] == "err" and t[1] == got[1] and not mdrawn and not drawn
         elif op == "dsargs":
             body, left = line.rsplit(" ", 1)
             ok = left == "left=0,0,0" and [[] if d == "-" else [int(x) for x in d.split(",")] for d in body.split("|")] == impl
